@@ -54,6 +54,7 @@ def litMeta (m : List (Bytes × Bytes)) : Meta := m.map fun kv => (kv.1, Val.lit
 inductive Src
   | const (vs : List Int)      -- emit these values
   | input (add : Int)          -- emit the input column with `add` added to every value
+  | rep (n : Nat) (v : Int)    -- emit `n` rows of `v`
   deriving Repr, DecidableEq
 
 /-- One handler action inside a `Produce`/`Exchange` call. `prop`: the handler returns the error
@@ -105,6 +106,7 @@ def Coll.new (producer : Bool) : Coll := { batches := [], dataIdx := none, finis
 def srcVals (input : List Int) : Src → List Int
   | .const vs => vs
   | .input add => input.map (· + add)
+  | .rep n v => List.replicate n v
 
 /-- Run one scripted handler call against a collector. `some e` = the handler returned / panicked
 with `e` (what it already put into the collector is discarded by the caller). -/
@@ -292,6 +294,8 @@ structure LoopOut where
   events : List Event
   body : Nat := 0           -- bytes in the response buffer when the loop returns
   uploads : List Nat := []  -- predicted (buffer) sizes of the data batches this turn uploaded
+  lastStart : Nat := 0      -- bytes in the buffer when the last cycle of this turn started
+  nData : Nat := 0          -- data batches written in this turn
   deriving Repr, DecidableEq
 
 def flushProducer : List OBatch → List RBatch
@@ -309,34 +313,37 @@ call of this HTTP turn sees (`none` afterwards); `nData` data batches and `ext` 
 so far in this turn; `body` bytes already in the response buffer, `sizes` the wire sizes of the
 batches still to be written. -/
 def produceLoop (cfg : Cfg) : List Tick → Nat → Option Meta → Nat → Nat → List TickEnv → Nat → List Nat → LoopOut
-  | [], pos, first, _, _, _, body, _ =>
+  | [], pos, first, nData, _, _, body, _ =>
     { out := [], finished := true, err := none, pos := pos + 1, events := [.produce pos (first.getD [])],
-      body := body }
+      body := body, lastStart := body, nData := nData }
   | t :: rest, pos, first, nData, ext, envs, body, sizes =>
     let ev := Event.produce pos (first.getD [])
     let te := envs.headD {}
     match runActs [] (Coll.new true) t with
     | (_, some e) =>
       { out := [.exc e], finished := false, err := some e, pos := pos + 1, events := [ev],
-        body := body + sumList (sizes.take 1) }
+        body := body + sumList (sizes.take 1), lastStart := body, nData := nData }
     | (c, none) =>
       if !c.finished && c.dataIdx.isNone then
         { out := [.exc .noData], finished := false, err := some .noData, pos := pos + 1, events := [ev],
-          body := body + sumList (sizes.take 1) }
+          body := body + sumList (sizes.take 1), lastStart := body, nData := nData }
       else if extPreflight cfg c te ext then
         { out := [.exc .capExt], finished := false, err := some .capExt, pos := pos + 1, events := [ev],
-          body := body + sumList (sizes.take 1) }
+          body := body + sumList (sizes.take 1), lastStart := body, nData := nData }
       else
         let flushed := flushProducer c.batches
         let nData' := nData + (if c.dataIdx.isSome then 1 else 0)
         let body' := body + sumList (sizes.take c.batches.length)
         let up := if chargedExtFlag cfg c te then [predictExt cfg (dataRows c) te.buf] else []
         if c.finished then
-          { out := flushed, finished := true, err := none, pos := pos + 1, events := [ev], body := body', uploads := up }
+          { out := flushed, finished := true, err := none, pos := pos + 1, events := [ev], body := body', uploads := up,
+            lastStart := body, nData := nData' }
         else if cfg.batchLimit > 0 ∧ nData' ≥ cfg.batchLimit then
-          { out := flushed, finished := false, err := none, pos := pos + 1, events := [ev], body := body', uploads := up }
+          { out := flushed, finished := false, err := none, pos := pos + 1, events := [ev], body := body', uploads := up,
+            lastStart := body, nData := nData' }
         else if cfg.maxResp > 0 ∧ body' ≥ cfg.maxResp then
-          { out := flushed, finished := false, err := none, pos := pos + 1, events := [ev], body := body', uploads := up }
+          { out := flushed, finished := false, err := none, pos := pos + 1, events := [ev], body := body', uploads := up,
+            lastStart := body, nData := nData' }
         else
           let r := produceLoop cfg rest (pos + 1) none nData' (ext + chargedExt cfg c te) envs.tail body'
             (sizes.drop c.batches.length)
@@ -429,5 +436,92 @@ def handleInit (cfg : Cfg) (w : World) (rq : InitReq) : Resp × World × List Ev
   else
     ({ status := 200, rpcErr := false, batches := [.token tokMeta] },
      cachePut cfg { w0 with minted := w0.minted ++ [cur] } rq.inst c, [])
+
+/-! ### What a turn uploads; the whole stream of a producer state -/
+
+/-- number of uploads an exchange turn makes: the data batch is uploaded during the flush, i.e.
+when the handler succeeded, the pre-flight passed and the batch qualifies (the post-flush check
+comes after the upload) -/
+def exchangeUploads (cfg : Cfg) (cur : Cursor) (req : Req) : Nat :=
+  let tick := (tickAt cur.st).getD defaultExchangeTick
+  let te := req.env.ticks.headD {}
+  match runActs req.vals (Coll.new false) tick with
+  | (_, some _) => 0
+  | (c, none) =>
+    if c.dataIdx.isNone then 0
+    else if extPreflight cfg c te 0 then 0
+    else if chargedExtFlag cfg c te then 1 else 0
+
+/-- raw bytes an exchange turn uploads -/
+def exchangeCharged (cfg : Cfg) (cur : Cursor) (req : Req) : Nat :=
+  let tick := (tickAt cur.st).getD defaultExchangeTick
+  let te := req.env.ticks.headD {}
+  match runActs req.vals (Coll.new false) tick with
+  | (_, some _) => 0
+  | (c, none) =>
+    if c.dataIdx.isNone then 0
+    else if extPreflight cfg c te 0 then 0
+    else chargedExt cfg c te
+
+/-- The stream a scripted producer state delivers when nothing ends a turn early: the batches of
+every cycle until the state finishes or fails (this is also what a pipe transport delivers). -/
+def fullRun : List Tick → List RBatch × Bool × Option Err
+  | [] => ([], true, none)
+  | t :: rest =>
+    match runActs [] (Coll.new true) t with
+    | (_, some e) => ([.exc e], false, some e)
+    | (c, none) =>
+      if !c.finished && c.dataIdx.isNone then ([.exc .noData], false, some .noData)
+      else if c.finished then (flushProducer c.batches, true, none)
+      else
+        let r := fullRun rest
+        (flushProducer c.batches ++ r.1, r.2.1, r.2.2)
+
+/-! ### Unary call (`handleUnary`), the part after the method handler returned -/
+
+inductive UOutcome
+  | value (size : Nat)        -- the handler returned a value (a string of `size` bytes)
+  | fail (code : Nat)
+  | panic (code : Nat)
+  deriving Repr, DecidableEq
+
+structure UReq where
+  logs : List Nat             -- `callCtx.ClientLog` calls made by the handler
+  outcome : UOutcome
+  env : Env := {}             -- `wire`: the body `WriteUnaryResponse` produced; `ticks.head`: result batch sizes
+  deriving Repr, DecidableEq
+
+/-- `handleUnary` from the handler's return on: an error answers logs + exception; a value is
+pre-flighted against the external cap (refusal keeps the logs), possibly uploaded, written, and the
+flushed body / the raw upload are checked against both caps (refusal drops the logs). -/
+def handleUnary (cfg : Cfg) (rq : UReq) : Resp :=
+  let logs := rq.logs.map RBatch.log
+  let te := rq.env.ticks.headD {}
+  match rq.outcome with
+  | .fail k => { status := 200, rpcErr := true, batches := logs ++ [.exc (.handler k)] }
+  | .panic k => { status := 200, rpcErr := true, batches := logs ++ [.exc (.panic k)] }
+  | .value size =>
+    let predicted := predictExt cfg 1 te.buf
+    if cfg.extOn && decide (cfg.maxExt > 0 ∧ predicted > cfg.maxExt) then
+      { status := 200, rpcErr := true, batches := logs ++ [.exc .capExt] }
+    else
+      let ext := if predicted > 0 then te.raw else 0
+      match enforceBudgets cfg rq.env.wire ext with
+      | some e => { status := 200, rpcErr := true, batches := [.exc e] }
+      | none => { status := 200, rpcErr := false, batches := logs ++ [.data [size] []] }
+
+/-- number of uploads a unary call makes -/
+def unaryUploads (cfg : Cfg) (rq : UReq) : Nat :=
+  let te := rq.env.ticks.headD {}
+  match rq.outcome with
+  | .value _ =>
+    let predicted := predictExt cfg 1 te.buf
+    if cfg.extOn && decide (cfg.maxExt > 0 ∧ predicted > cfg.maxExt) then 0
+    else if predicted > 0 then 1 else 0
+  | _ => 0
+
+/-- raw bytes a unary call uploads -/
+def unaryCharged (cfg : Cfg) (rq : UReq) : Nat :=
+  if unaryUploads cfg rq > 0 then (rq.env.ticks.headD {}).raw else 0
 
 end Vgi.HttpStream
